@@ -33,13 +33,48 @@ func yamlMarshalStream(vs []any) ([]byte, error) {
 			continue
 		}
 
-		err := enc.Encode(v)
+		err := enc.Encode(yamlKeepFloats(v))
 		if err != nil {
 			return nil, err
 		}
 	}
 
 	return buf.Bytes(), nil
+}
+
+// yamlKeepFloats returns v with every integral float64 replaced by a scalar
+// node written with a fraction ("1.0"), so that floats stay floats when the
+// output is read again.
+func yamlKeepFloats(v any) any {
+	switch v2 := v.(type) {
+	case float64:
+		if lit, ok := integralFloatLiteral(v2); ok {
+			return &yaml.Node{Kind: yaml.ScalarNode, Tag: "!!float", Value: lit}
+		}
+
+		return v2
+
+	case map[string]any:
+		ret := make(map[string]any, len(v2))
+
+		for k, v3 := range v2 {
+			ret[k] = yamlKeepFloats(v3)
+		}
+
+		return ret
+
+	case []any:
+		ret := make([]any, 0, len(v2))
+
+		for _, v3 := range v2 {
+			ret = append(ret, yamlKeepFloats(v3))
+		}
+
+		return ret
+
+	default:
+		return v
+	}
 }
 
 var yamlRE = regexp.MustCompile(`(?m)^---$`)
